@@ -14,11 +14,18 @@ import findings as F
 import orchestrate
 import tlc
 
-DESIGN = [  # (module, cfg, serves)
-    ("FixPipeline", "MC_FixPipeline.cfg", {"C01", "C02", "C03", "C07", "C18", "C10", "C13", "C20"}),
+DESIGN = {  # tier -> (module, cfg, serves)
+    "quick": [("FixPipeline", "MC_FixPipeline_quick.cfg", {"C01", "C02", "C03", "C07", "C18"})],
+    "thorough": [("FixPipeline", "MC_FixPipeline_thorough.cfg", {"C01", "C02", "C03", "C07", "C18"})],
+}
+MUTANTS = [  # (module, cfg, invariant that must be reported violated)
+    ("FixPipeline", "Mutant_FixPipeline_Forward.cfg", "C18_StepIsSumOfHunks"),
+    ("FixPipeline", "Mutant_FixPipeline_Overlap.cfg", "C18_StepIsSumOfHunks"),
+    ("FixPipeline", "Mutant_FixPipeline_NoRemap.cfg", "C18_IndexAgrees"),
+    ("FixPipeline", "Mutant_FixPipeline_CaseLit.cfg", "C01_CodePreserved"),
 ]
 
-FAMILY = ["C01", "C02", "C03", "C07", "C08", "C10", "C18", "C19"]
+FAMILY = ["C01", "C02", "C03", "C07", "C08", "C09", "C10", "C18", "C19"]
 
 
 def build_items(tier, seed):
@@ -64,9 +71,9 @@ def collect(tier):
         return r
 
 
-def run_design(serves=None):
+def run_design(tier):
     out = []
-    for module, cfg, props in DESIGN:
+    for module, cfg, props in DESIGN[tier]:
         if not os.path.exists(os.path.join(tlc.SPEC, cfg)):
             continue
         t0 = time.time()
@@ -81,9 +88,9 @@ def _collect(tier, cd):
     seed = common.seed()
     items = build_items(tier, seed)
     wd = orchestrate.workdir("fixfam_" + tier)
-    design = run_design()
+    design = run_design(tier)
     t1 = time.time()
-    outs = orchestrate.run_shards(items, wd, shards=32, probe=True, reparse=True)
+    outs = orchestrate.run_shards(items, wd, shards=32, probe=True, reparse=True, rounds=(2 if tier == "quick" else 4))
     t2 = time.time()
     results = tlc.validate_shards(outs, module="FixTrace", parallel=16)
     t3 = time.time()
